@@ -111,6 +111,16 @@ def gen_inputs(ctx):
                         ("bc", 16, 2), ("bc", 2, 40), ("bc", 5, 16), ("bcrt", 0, 20)):
         for _ in range(1 if q else 4):
             bases.append((hrp, addr(hrp, ver, rb(n))))
+    # the expected prefix against the address's own prefix, in every relation: equal, proper prefix (down to the
+    # empty one), extension, suffix, same length but different, a prefix that swallows the separator or data symbols
+    for real in ("bc", "tb", "bcrt", "b", "a1b", "tbs", "bc1q"):
+        for ver, n in ((0, 20), (1, 32)):
+            s_ = addr(real, ver, rb(n))
+            cands = {real, "", real[:1], real[:-1], real + "1", real + s_[len(real) + 1], real + "x", real[1:], "x" + real,
+                     real[:-1] + ("x" if real[-1] != "x" else "y"), s_[:len(real) + 2], real.upper()}
+            for exp in sorted(cands):
+                rel = "equal" if exp == real else "prefix" if real.startswith(exp) else "extension" if exp.startswith(real) else "other"
+                out.append(("SegwitDec", {"hrp": T(exp), "addr": T(s_)}, ("hrp-relation", rel, exp == "")))
     printable = [chr(c) for c in range(33, 127)]
     for hrp, s in bases:
         sep = s.rfind("1")
